@@ -253,7 +253,29 @@ def task_admission(shapes, presence, lo, hi):
             cc = [concretize(m, d) for d in comps]
             cr = [tuple(concretize(m, d) for d in r) for r in rxs]
             accepted = p.kind == "ok"
-            res["violations"].append(dict(
+            soft = p.kind == "exc" and wrapper_exc(p.value)
+            if soft:
+                # the path ended where the number wrapper cannot follow (e.g. an int() coercion): look for a concrete witness among BALANCED
+                # structures with non-integer coefficients and compositions (these are what such coercions damage); verdict by the replay only
+                sw = z3.Solver()
+                sw.set("timeout", 20000)
+                allk = sorted(set().union(*[set(c) for c in comps]))
+                for ri, r in enumerate(rxs):
+                    for k in allk:
+                        sw.add(z3.Sum([z3.RealVal(0)] + [lift(comps[i].get(k, 0)) * lift(r[1].get("S%d" % i, 0) - r[0].get("S%d" % i, 0) + r[3].get("S%d" % i, 0) - r[2].get("S%d" % i, 0))
+                                                         for i in range(len(comps))]) == 0)
+                    for d in r:
+                        for v in d.values():
+                            sw.add(z3.Or(v.t == z3.Q(1, 2), v.t == z3.Q(3, 2)))
+                for c in comps:
+                    for k, v in c.items():
+                        if k != 0:
+                            sw.add(v.t >= z3.Q(1, 2), z3.ToReal(z3.ToInt(v.t * 2)) == v.t * 2)
+                if str(sw.check()) == "sat":
+                    mw = sw.model()
+                    cc = [concretize(mw, d) for d in comps]
+                    cr = [tuple(concretize(mw, d) for d in r) for r in rxs]
+            res["violations"].append(dict(soft=soft,
                 key="admission:%s" % ("accepted-unbalanced-or-wrong-invariant" if accepted else "refused-or-misnamed"),
                 desc="shape %s compositions=%s reactions=%s -> %s" % (shape, cc, cr, "accepted" if accepted else repr(p.value)),
                 replay_src=REPLAY % dict(comps=pyrepr(cc), rxs=pyrepr(cr), accept=accepted, named=None)))
